@@ -41,7 +41,7 @@ CHECKS = {
    text="Generated byte streams written to a real FIFO under five partitions with pauses; callback arguments must equal the delimiter-terminated records in order (modulo one trailing delimiter), the unterminated tail is never delivered, delivery stops at the injected callback error which is returned unchanged, end-of-stream is an error. One stream in eight stalls 400 ms in the middle of a record.",
    note="Both delimiter conventions are accepted for the callback argument.", ref="4 C12"),
  "C13": dict(engine="mon-pipe+mon-audit", cat="fault_enumeration", tech="state-confirmed cancellation injection with goroutine-dump hang classification; logical-clock check for deliveries after return; -race",
-   text="Worker x blocking state x downstream capacity enumerated; each state is confirmed from the goroutine dump before cancel(); the worker must return (stuck = parked after the watchdog, otherwise inconclusive) and nothing may be delivered after the observed return. Audit processor states include parked in select with an unready correlator and flushing expired reassembler events; the ingester hand-off is cancelled in each of its four blocking branches; the processor under test is built with a context that is never cancelled, only the worker context is.",
+   text="Worker x blocking state x downstream capacity enumerated; each state is confirmed from the goroutine dump before cancel(); the worker must return (stuck = parked after the watchdog, otherwise inconclusive) and nothing may be delivered after the observed return. Audit processor states include parked in select with an unready correlator and flushing expired reassembler events; the ingester hand-off is cancelled in each of its four blocking branches; the processor under test is built with a context that is never cancelled, only the worker context is. Two repetitions in fifty cancel only after a long stay (2.5 s; thorough 12 s) in the confirmed state.",
    note="A blocked output writer is not among the listed states and is not injected.", ref="4 C13"),
  "C14": dict(engine="mon-audit", cat="exploration", tech="differential runtime monitor: emitted UserAction vs go-libaudit coalescing of fresh copies of the same lines; snapshot/aliasing check of the stored login",
    text="Sessions with a bound login and up to 500 record groups through Auditd.Read; every emitted UserAction is compared (type, component, timestamp, session, outcome per result token, action/how/object, process_args presence and content) with the event coalesced from fresh copies; the stored login is snapshotted before and after and the emitted subjects map is mutated to expose aliasing. In half of the batches the login arrives after 0-40 held groups, so the hold-queue flush is rendered and compared too. Kernel timestamps do not grow with delivery order (adjacent groups swapped, every fifth session backwards).",
@@ -50,10 +50,10 @@ CHECKS = {
    text="Each fault kind is injected at every position in turn; Read must return an error that identifies the line or wraps the injected cause (errors.Is/As); a fault that leaves Read parked is a violation. Clean and line-wise interleaved streams must yield exactly one UserAction per kernel event that reflects all its records. Every kernel event carries a unique marker that must reappear in exactly one UserAction; two events per millisecond share a timestamp; three or more events are interleaved line-wise; in late-login streams the hold queue is flushed through a failing writer.",
    note="auparse.ParseLogLine is the judge of well-formedness.", ref="4 C15"),
  "C08": dict(engine="mon-daemon", cat="fault_enumeration", tech="process-level monitor on the built binary: fault injection per cause x load, wait4 status, SIGQUIT goroutine-dump hang classification; saturation precondition observed from writer stalls",
-   text="The daemon binary built from the working tree is run with two FIFOs; each failure cause (including either pipe's end-of-stream in the middle of a record) is injected at idle and (where meaningful) while a pumping writer keeps the audit pipe full (observed: write(2) hit EAGAIN >= 5 times). The process must exit (a non-exit is a violation only when the SIGQUIT dump shows main parked in errgroup.Wait and a worker parked) with non-zero status after failures. Saturation is measured (>= 10000 lines in flight between pipe and output, the pump feeds events of a correlated session and injects in-stream); every cause is also run with the other pipe still waiting for its writer. Thorough repeats x3 and with the -race build. Scenario dimensions also include the log level (debug/info), the metrics/health HTTP server with a scraper that stops reading its response, and a pipe whose writer never appears.",
+   text="The daemon binary built from the working tree is run with two FIFOs; each failure cause (including either pipe's end-of-stream in the middle of a record) is injected at idle and (where meaningful) while a pumping writer keeps the audit pipe full (observed: write(2) hit EAGAIN >= 5 times). The process must exit (a non-exit is a violation only when the SIGQUIT dump shows main parked in errgroup.Wait and a worker parked) with non-zero status after failures. Saturation is measured (>= 10000 lines in flight between pipe and output, the pump feeds events of a correlated session and injects in-stream); every cause is also run with the other pipe still waiting for its writer. Thorough repeats x3 and with the -race build. Scenario dimensions also include the log level (debug/info), the metrics/health HTTP server with a scraper that stops reading its response, and a pipe whose writer never appears. Every cause also runs with -audit-metrics (one more member of the worker group).",
    note="A write failure triggered by a correlated audit event cannot be arranged on the binary (/dev/full fails the login event first); it is enumerated in-process by C15.", ref="4 C08"),
  "C10": dict(engine="mon-daemon", cat="exploration", tech="offline checker over the daemon's output file after a marker-session barrier; in-process logical-clock order check under the race detector",
-   text="Concurrent writers on both FIFOs (window 0..unbounded), 50-500 sessions, events up to 64 KiB; every output line must decode as exactly one JSON audit event with mandatory fields, no event key twice, each UserAction after the UserLogin carrying its identity. In-process: shared writer over the recorder, login line and LOGIN record released at the same instant, UserLogin write returns before any UserAction write with its identity starts. Thorough adds the -race daemon. A burst scenario keeps both pipelines writing for as long as the slower one needs, and a phased scenario delivers all audit records before any sshd line (every UserAction then comes from a hold-queue flush).",
+   text="Concurrent writers on both FIFOs (window 0..unbounded), 50-500 sessions, events up to 64 KiB; every output line must decode as exactly one JSON audit event with mandatory fields, no event key twice, each UserAction after the UserLogin carrying its identity. In-process: shared writer over the recorder, login line and LOGIN record released at the same instant, UserLogin write returns before any UserAction write with its identity starts. Thorough adds the -race daemon. A burst scenario keeps both pipelines writing for as long as the slower one needs, and a phased scenario delivers all audit records before any sshd line (every UserAction then comes from a hold-queue flush). Every other scenario starts on an events file that already holds an earlier run's output, which must stay intact.",
    note="O_APPEND single-write atomicity is an observed OS property.", ref="4 C10"),
  "C03": dict(engine="mon-sched", cat="exploration", tech="controlled-schedule execution of the real code at hooked lock sites (exhaustive DFS re-execution for small programs, seeded random/priority schedules for larger ones) with a relative-atomicity oracle; Go race detector on perturbed free-running executions, Auditd.Read wiring and the -race daemon",
    text="Twelve small concurrent programs on one tracker are explored exhaustively at lock-acquisition granularity: the emitted events must equal what some sequential merge of the same operations produces when run against the same code, and no schedule may deadlock. Larger programs run under seeded random and priority schedules. Under -race the same programs run free with delays injected at the lock sites, Auditd.Read gets both halves of a session at the same instant, and the -race daemon is driven with concurrent writers; any race report is a violation. Programs include a cleanup racing one session's correlation while the other session's pending login (P9) or pending LOGIN record (P10) waits, with the other half arriving afterwards, and a parked login expiring while its LOGIN record is processed, the login line being delivered again afterwards (P11, P12); trackers run with debug- and info-level loggers.",
